@@ -146,3 +146,29 @@ Definition map_present (bins : list (list Z)) (m : machine) (am : appmap) : Prop
   (forall b, In b (map fst am) ->
      exists data, nth_error bins (Z.to_nat b) = Some data /\ m_base m + zlen data <= 2 ^ 32)
   /\ (forall b x y p, In (b, (x, y, p)) (named am) -> In (x, y) (map fst (m_chips m))).
+
+(* ---------------------------------------------------------------- the attempts of load_application *)
+(* an attempt is addressed to exactly the named cores that do not hold their binary at that moment *)
+Definition att_ok (bins : list (list Z)) (aid : Z) (am : appmap) (um : appmap * machine) : Prop :=
+  incl (named (fst um)) (named am)
+  /\ forall b c, In (b, c) (named am) ->
+       (In (b, c) (named (fst um)) <-> ~ holds bins (snd um) aid STATE_WAIT b c).
+
+
+(* a packet that is not part of a flood fill (sver, read, signal / count) *)
+Definition not_fill_pkt (q : pkt) : Prop := q_cmd q <> CMD_NNP /\ q_cmd q <> CMD_FFD.
+
+(* the packets of a load_application call, attempt by attempt: the flood fill of the map the attempt is addressed
+   to (one well formed fill per entry selecting exactly the entry's cores, [fills_ok]), then only packets that
+   are not flood-fill packets (the verification: count and / or per-core reads) up to the next attempt; after the
+   last attempt only such packets (the start signal) *)
+Fixpoint attempts_ok (buffer base : Z) (bins : list (list Z)) (atts : list (appmap * machine)) (ps : list pkt) : Prop :=
+  match atts with
+  | [] => Forall not_fill_pkt ps
+  | um :: r =>
+      exists fills ver rest,
+        ps = fills ++ ver ++ rest
+        /\ fills_ok buffer base bins (fst um) fills
+        /\ Forall not_fill_pkt ver
+        /\ attempts_ok buffer base bins r rest
+  end.
